@@ -54,7 +54,8 @@ def main():
                 print("%s: %s" % (name, "silent" if ok else "ALARM " + " ".join("%s=exit%d" % (p, r["exit"]) for p, r in res.items() if r["exit"])))
             if not ok:
                 bad += 1
-            json.dump(meta, open(mp, "w"), indent=1)
+            if not os.environ.get("RECHECK_NOWRITE"):
+                json.dump(meta, open(mp, "w"), indent=1)
         finally:
             sh(["git", "-C", "/repo", "worktree", "remove", "--force", wt], "/")
             shutil.rmtree(wt, ignore_errors=True)
